@@ -164,7 +164,7 @@ def search(acc: Acc, tier, shard, nshards):
         acc.cls("strings:non_ascii" if nonascii else "strings:ascii")
         if astral:
             acc.cls("strings:astral")
-        return check_files(doc, text, {"doc": doc, "text": text, "public": counter["i"] % 10 == 0})
+        return check_files(doc, text, {"doc": doc, "text": text, "public": ch.chance(1, 10)})
 
     hyp_search(acc, ID, "files", shard, n, body, tier)
 
